@@ -59,6 +59,9 @@ func Classify(c Case) (bool, []string) {
 	for _, o := range c.Ops {
 		labels["method="+o.Method] = true
 		labels["payload="+o.Payload] = true
+		if len(o.consumesList()) > 1 {
+			labels["consumes lists a second media type after the payload's ("+o.Payload+" then "+o.AlsoConsumes+")"] = true
+		}
 		labels["produces="+o.Produces] = true
 		if o.Auth.Kind != "" {
 			labels["auth="+o.Auth.Kind] = true
